@@ -55,7 +55,7 @@ func (k *Keys) GetCursorPos() (x, y int) {
 		// If there is something but not cursor answer, its user input.
 		if len(match) == 0 && len(cursor) > 0 {
 			k.mutex.RLock()
-			k.buf = append(k.buf, cursor...)
+			k.addInput(cursor)
 			k.mustWait = false
 			k.mutex.RUnlock()
 
@@ -72,7 +72,7 @@ func (k *Keys) GetCursorPos() (x, y int) {
 		// the cursor position, and are user input as well.
 		if _, keys := k.extractCursorPos(cursor); len(keys) > 0 {
 			k.mutex.RLock()
-			k.buf = append(k.buf, keys...)
+			k.addInput(keys)
 			k.mustWait = false
 			k.mutex.RUnlock()
 		}
